@@ -41,7 +41,7 @@ CLASSMAP = dict(excs.POOL, BaseException=BaseException, Exception=Exception, Loo
 
 
 def plan(tier, seed):
-    n = 1500 if tier == "quick" else 50000
+    n = 6000 if tier == "quick" else 60000
     return [{"seed": seed, "i": i} for i in range(n)]
 
 
